@@ -10,7 +10,8 @@ LEVEL = 'exploration'
 LEVEL_TEXT = ('Bounded-exhaustive runtime check: every Linen filter form up to nesting depth 2 (quick) / 3 (thorough), all '
               'ordered pairs x 3 operators x 4 names, all filter lists up to length 3, and NNX filter expressions up to the '
               'same depth (plus list/tuple members nested inside Any/All/Not) through all eight split/filter entry points, each compared with an independent membership oracle. '
-              'Filters are finite/co-finite sets, so small scope is decisive for the algebra; exploration is the honest level.')
+              'Filters are finite/co-finite sets, so small scope is decisive for the algebra; exploration is the honest level.'
+              ' Round f: nnx.pop on a model with tied Variables, nnx.variables among the partition APIs.')
 LEVEL_NOTE = 'Trusts the 10-line reference evaluators in vf/props/c14.py and the JAX compat aliases (vf/compat.py).'
 TECHNIQUE = 'runtime monitoring: semantic membership oracle over bounded-exhaustive filter forms on the real filter functions'
 RULE = ('Linen: every filter form of nesting depth <= D (D=2 quick, 4 thorough) over names {a,b,ab} (ab contains the others as substrings) '
